@@ -93,6 +93,8 @@ PreOrder(cfg, c) ==
 
 \* ---- options -----------------------------------------------------------
 IsAbsenceStep(opts, time) == Mem(opts.absL, time)
+\* simulate(unit_time=...): the amount `time` advances per step (1 unless the case says otherwise)
+Unit(opts) == IF "unit" \in DOMAIN opts THEN opts.unit ELSE 1
 
 \* ---- well-formedness of generated configurations -----------------------
 CfgOK(cfg) ==
